@@ -262,6 +262,30 @@ def run(ctx: Ctx) -> None:
                 ok = norm(pc.args[0]) == "args.header" and kw.get("encoding") == "args.encoding"
                 why = "parse_file is not called with the header path and the --encoding value"
     ctx.ob("R20.4", "dump:dumpmain|json mode", ok, msg=why, node=dm, mod=dump)
+    # without --pcpp / --gcc the options given to parse_file carry no preprocessor (else the CLI result is that of a
+    # different configuration than parse_file(path)): evaluated over the finite domain of the mode / flag arguments
+    from ..booleval import paths_to as _paths
+    popts = [n for n in dcfg.nodes for c in n.calls() if isinstance(c.func, ast.Name) and c.func.id == "ParserOptions"]
+    okp = len(popts) == 1
+    whyp = "ParserOptions(...) anchor vanished in dumpmain"
+    if okp:
+        pc = [c for c in popts[0].calls() if isinstance(c.func, ast.Name) and c.func.id == "ParserOptions"][0]
+        pv = next((k.value for k in pc.keywords if k.arg == "preprocessor"), None)
+        bad_modes = []
+        if isinstance(pv, ast.Name):
+            def symf(e):
+                t = norm(e)
+                return t if t in ("args.mode", "args.pcpp", "args.gcc", "args.depfile") else None
+            for mode in ("json", "pprint", "repr", "brepr"):
+                envs = _paths(dcfg, popts[0], {"args.mode": mode, "args.pcpp": False, "args.gcc": False, "args.depfile": None}, symf)
+                if not envs or any(pv.id not in e or e[pv.id] is not None for e in envs):
+                    bad_modes.append(mode)
+            okp = not bad_modes
+            whyp = f"with neither --pcpp nor --gcc a preprocessor can still reach ParserOptions in mode(s) {bad_modes}: the dumped data is that of a preprocessed header, not of parse_file(path)"
+        else:
+            okp = pv is None or (isinstance(pv, ast.Constant) and pv.value is None)
+            whyp = "ParserOptions is given a preprocessor that is not the flag-selected one"
+    ctx.ob("R20.4", "dump:dumpmain|no preprocessor unless one was asked for", okp, msg=whyp, node=popts[0].stmt if popts else dm, mod=dump)
 
     # ---------------------------------------------------------------- R20.5
     ctx.rule("R20.5", "nondefault_repr: container kinds covered; a field is skipped only for repr/compare off or value == declared default; qualified class name", minimum=4)
